@@ -495,7 +495,7 @@ impl util::BitVec
             let span_location = span.span.location().unwrap();
             let char_counter = util::CharCounter::new(&prev_file_chars);
 
-            result.push_str(&format!("{:1$}", contents_str, content_width));
+            result.push_str(&format!("{:1$}", contents_str, content_width.min(u16::MAX as usize)));
             result.push_str(&format!(" ; {}", char_counter.get_excerpt(span_location.0, span_location.1)));
             result.push_str("\n");
 		}
@@ -632,7 +632,7 @@ impl util::BitVec
 
                 contents_str.push(c);
             }
-            result.push_str(&format!("{:1$}\n", contents_str, content_width));
+            result.push_str(&format!("{:1$}\n", contents_str, content_width.min(u16::MAX as usize)));
 		}
 		result
 	}
